@@ -241,7 +241,7 @@ pub fn run(ctx: &mut Ctx) {
             one_case(ctx, &mut r, &f, *p, *e, *b);
         }
     }
-    let n = ctx.n(16_000, 3_000_000);
+    let n = ctx.n(1_200_000, 100_000_000);
     random_cases!(ctx, n, |r, _i| {
         let base = gen_flags(&mut r, ClvmFlags::all() & !ClvmFlags::ENABLE_GC);
         let mut cfg = ProgCfg::full(base);
@@ -249,7 +249,18 @@ pub fn run(ctx: &mut Ctx) {
         cfg.bls = r.chance(1, 8);
         cfg.secp = r.chance(1, 8);
         let mut f = Forest::new();
-        let p = gen_program(&mut f, &mut r, cfg);
+        let p = if r.chance(1, 6) {
+            // bare accumulator loop (many iterations, GC candidates `a`, `=`, `-`)
+            let mut rr = r.clone();
+            let pts = crate::util::points();
+            let measure = |_: &Forest, _: Id, _: Id, _: Option<u32>| None;
+            let mut g = crate::genr::ProgGen::new(&mut f, &mut rr, cfg, &measure, pts);
+            let prog = g.accumulator_loop();
+            let env = f.nil();
+            crate::genr::Prog { prog, env, ops: 12, guards: 0, mutated: false }
+        } else {
+            gen_program(&mut f, &mut r, cfg)
+        };
         one_case(ctx, &mut r, &f, p.prog, p.env, base);
     });
 }
